@@ -31,12 +31,24 @@ class Scenario:
         try:
             t0 = time.time()
             prep.make_scratch_copy(self.src)
+            # cargo decides freshness by mtime: a tree whose files are OLDER than the last build in this target directory (the
+            # unchanged tree after a run against a seeded change, say) would silently keep the previous binary.  Remember which
+            # tree the target directory was last built from and touch the sources when it differs.
+            stamp = os.path.join(self.target, '.verif-tree-hash')
+            last = open(stamp).read().strip() if os.path.exists(stamp) else None
+            if last != key:
+                now = time.time()
+                for root, _, names in os.walk(os.path.join(self.src, 'src')):
+                    for n in names:
+                        os.utime(os.path.join(root, n), (now, now))
             e = dict(os.environ)
             e.update({'CARGO_NET_OFFLINE': 'true', 'CARGO_TARGET_DIR': self.target})
             r = subprocess.run(['cargo', 'build', '--offline', '--bin', 'redo'], cwd=self.src, env=e, stdout=subprocess.PIPE,
                                stderr=subprocess.PIPE, timeout=3600)
             if r.returncode != 0:
                 raise RuntimeError('cargo build failed: ' + r.stderr.decode()[-3000:])
+            with open(stamp, 'w') as fh:
+                fh.write(key)
             exe = os.path.join(self.target, 'debug', 'redo')
             shutil.rmtree(self.bindir, ignore_errors=True)
             os.makedirs(self.bindir)
